@@ -450,7 +450,7 @@ func numStrip(s string) string {
 func init() {
 	core.Register(&core.Check{
 		ID:   "C16",
-		Rule: "cases = G5 synthetic nodes: every node kind of ast.Visitor x slot subsets (all 2^k for k<=12, else all single/double toggles + PRNG subsets), marker values incl. bytes that need quoting, unique positions, every third case with one node object standing twice in a list, x 4 option sets  ++  parsed trees of corpus/hostile inputs x 4 option sets, half of them dumped by long-lived dumpers that have dumped other trees before; non-trivial = at least one composite literal read back and compared; distinct by (kind, subset) / input bytes",
+		Rule: "cases = G5 synthetic nodes: every node kind of ast.Visitor x slot subsets (all 2^k for k<=12, else all single/double toggles + PRNG subsets), marker values incl. bytes that need quoting, unique positions, every third case with one node object standing twice in a list, every third with free-floating tokens that carry free-floating tokens of their own, x 4 option sets  ++  parsed trees of corpus/hostile inputs x 4 option sets, half of them dumped by long-lived dumpers that have dumped other trees before; non-trivial = at least one composite literal read back and compared; distinct by (kind, subset) / input bytes",
 		Assumptions: []string{
 			"go/parser accepting the text is the meaning of 'syntactically valid Go composite literal'",
 			"labels: Go field name, except []byte values which the property says are labelled Val; empty lists may be shown or omitted",
@@ -462,7 +462,7 @@ func init() {
 			if idx < len(cases) {
 				sc := cases[idx]
 				zero := zeroOf(sc.Kind)
-				s := &gen.Synth{R: core.NewRand(c.P.Seed, "C16", idx), WithPos: true, Nasty: true, Share: idx%3 == 0}
+				s := &gen.Synth{R: core.NewRand(c.P.Seed, "C16", idx), WithPos: true, Nasty: true, Share: idx%3 == 0, NestFF: idx%3 == 1}
 				n := s.Build(zero, sc.Present)
 				w := core.Witness{Cfg: map[string]string{"kind": sc.Kind, "present": presentString(zero, sc.Present)}}
 				if s.Shared > 0 {
